@@ -145,7 +145,7 @@ def run(ctx):
     ctx.rule = ("paired real solves: (a) boundary data and initial field rotated by 1..nt-1 cells (2D/3D, constant and "
                 "temperature-dependent materials), (b) 2D with axisymmetric data vs 1D at a random ray, (c) 3D with axially "
                 "uniform data vs 2D at a random plane, (d) superposition of two data sets (constant material); plus the "
-                "per-step certificate on reduced abstractions with BC grids different from the tube grid. one case = one "
+                "per-step certificate on reduced abstractions with BC grids different from the tube grid; (e) the coupled thermohydraulic solver on a 2D tube with axisymmetric flux vs the same tube in 1D. one case = one "
                 "pair/triple or one certified step; all are non-trivial")
     ctx.trusted += ["scipy spsolve (outputs compared); harness reference for boundary data at the documented slice coordinates"]
     ctx.prove("C12")
@@ -215,6 +215,40 @@ def run(ctx):
         if not close(final_T(rc), final_T(ra) + final_T(rb), tol):
             findings.append((c, "response to the sum of two data sets differs from the sum of the responses (max %.3g)"
                              % np.max(np.abs(final_T(rc) - final_T(ra) - final_T(rb))), a))
+    # the coupled (thermohydraulic) solver: a 2D tube with axisymmetric flux against the same tube as a 1D model
+    import copy as _copy
+    from harness.props import c07
+    from harness.core import run_impl_parallel
+    cjobs = []
+    for _ in range(ctx.budget(2, 8)):
+        ctimes = [0.0, 1.0]
+        s2 = c07.tube_spec(rng, ctimes, 2, mult=rng.choice([1, 2]), flux_level=rng.choice([1.0, 2.0, 3.0]))
+        s1 = dict(_copy.deepcopy(s2), dim=1)
+        fpth = [["f", {"panels": ["0"], "mass_flow": [rng.choice([60.0, 90.0])] * 2, "inlet": [500.0, 510.0]}]]
+        cjobs.append((c07.base_case(0, ctimes, [["0", [s2]]], _copy.deepcopy(fpth)), c07.base_case(1, ctimes, [["0", [s1]]], _copy.deepcopy(fpth))))
+    cres = run_impl_parallel("c07_coupled", [c07.to_impl(x) for pr in cjobs for x in pr], workers=8, timeout=900)
+    coupled_findings = []
+    for k, (a, b) in enumerate(cjobs):
+        ra, rb = cres[2 * k], cres[2 * k + 1]
+        ctx.case(("coupled-2d1d", k), True)
+        ctx.count("pair:coupled-2d1d")
+        if "tubes" not in ra or "tubes" not in rb:
+            coupled_findings.append((a, b, "the coupled solve of a one-tube receiver did not complete: %s / %s"
+                                     % ({x: y for x, y in ra.items() if x != "tubes"}, {x: y for x, y in rb.items() if x != "tubes"})))
+            continue
+        T2 = c07.unhex(ra["tubes"][0]["temperature"], ra["tubes"][0]["tshape"])
+        T1 = c07.unhex(rb["tubes"][0]["temperature"], rb["tubes"][0]["tshape"])
+        F2 = c07.unhex(ra["tubes"][0]["fluid_T"], ra["tubes"][0]["fshape"])
+        F1 = c07.unhex(rb["tubes"][0]["fluid_T"], rb["tubes"][0]["fshape"])
+        gap = float(np.max(np.abs(T2 - T1[:, :, None])))
+        fgap = float(np.max(np.abs(F2 - F1)))
+        if gap > 1e-6 * float(np.max(np.abs(T1))) or fgap > 1e-6 * float(np.max(np.abs(F1))):
+            coupled_findings.append((a, b, "coupled solver: the 2D solution with axisymmetric flux differs from the 1D solution "
+                                           "(wall temperatures by %.3g, fluid temperatures by %.3g)" % (gap, fgap)))
+    if coupled_findings:
+        a, b, msg = coupled_findings[0]
+        ctx.violation("%s (%d failing comparisons)" % (msg, len(coupled_findings)),
+                      {"coupled": [c07.to_impl(a), c07.to_impl(b)], "oracle": msg}, tag="C12:coupled:" + msg[:24])
     terms, info = [], []
     for cfg in cert:
         r = ok(cfg)
@@ -241,6 +275,14 @@ def run(ctx):
 
 
 def replay(rp):
+    if rp.get("coupled"):
+        from harness.core import run_impl
+        res = run_impl("c07_coupled", {"cases": rp["coupled"]}, timeout=900)["results"]
+        print("recorded:", rp.get("oracle"))
+        for r in res:
+            print("observed now:", {k: v for k, v in r.items() if k != "tubes"},
+                  [t["fluid_T"][-2:] for t in r.get("tubes", [])])
+        return 1
     cfg = rp.get("config")
     if not cfg:
         print("replay file names a broken obligation, not an input: %s" % rp.get("broken"))
